@@ -29,14 +29,17 @@ RULE = (
     "C07's multi-account histories with one overdraft injected at a random debit (depth in {1e-11, 9e-11, 2e-10, 1e-9, 3}, "
     "optionally refilled later = transient), row numbers permuted so that sheet order != chronological order, "
     "same-instant buy+sell on one account, x both values of allow_negative_balances x methods; a quarter of the cases carry "
-    "no overdraft (must be accepted). Oracle: three-valued verdict from the rows; accepted runs are compared with the "
+    "no overdraft (must be accepted), an eighth of them with a debit appended that empties the destination of a transfer at the "
+    "transfer's own timestamp (never negative in time, covered only by the same-instant credit). Oracle: verdict from the rows; accepted runs are compared with the "
     "model's final balances. Non-trivial = a decided overdraft whose final balance is >= 0 (transient), or dust depth, or "
     "an overdraft inside an instant shared with other transactions; distinct by case hash."
 )
 ASSUMPTIONS = [
-    "undecided cases (tolerance band, same-instant transfer chains) are counted in ambiguous_skipped, never asserted",
+    "undecided cases (tolerance band [-1e-10, 0)) are counted in ambiguous_skipped, never asserted",
+    "'at any moment' is read as a point in time: a debit covered by a transfer credited at the same instant is not an overdraft (finding F12 is the one place where rp2 disagrees, depending on row order)",
     "when the whole holding is over-spent as well, the matcher's own RP2ValueError (C02) is accepted as the rejection",
 ]
+RULE += e2e.RULE_SUFFIX
 
 CFG = gen.GenCfg(min_steps=3, max_steps=14, max_exchanges=3, max_holders=2, tie_prob=0.35)
 
